@@ -1,6 +1,7 @@
 package main
 
 import (
+	"fmt"
 	"strconv"
 	"strings"
 
@@ -15,11 +16,13 @@ var (
 		{{"app", "a"}}, {{"app", "a"}, {"ver", "1"}}, {{"app", "b"}}, nil,
 		{{"app", "a"}, {"ver", "2"}, {"x", "y"}}, {{"ver", "1"}, {"app", "a"}}, {{"app", "b"}, {"ver", "1"}},
 	}
-	portPool  = []uint32{80, 8080, 9000, 9090, 8081, 81}
-	queryPort = []uint32{80, 8080, 9000, 9090, 8081, 81, 7777} // portPool and a port nothing mentions
-	awEvery   = 150                                            // one case in awEvery of stream ambient has an op on the real index
-	realModes = []string{"UNSET", "DISABLE", "PERMISSIVE", "STRICT"}
-	drToks    = []string{"nil", "nil", "nil", "DISABLE", "SIMPLE", "MUTUAL", "ISTIO_MUTUAL"}
+	portPool     = []uint32{80, 8080, 9000, 9090, 8081, 81}
+	queryPort    = []uint32{80, 8080, 9000, 9090, 8081, 81, 7777} // portPool and a port nothing mentions
+	awEvery      = 150                                            // one case in awEvery of stream ambient has an op on the real index
+	reservedPool = []uint32{15006, 15001, 15008, 15021, 15090, 443}
+	clKinds      = []string{"router", "noauto", "noistio", "external", "passthrough", "ptdisabled", "ptnoistio", "drpassthrough", "drptdisabled", "drdisable", "dristio", "drsubsetdisable", "drsubsetfallback", "k8s", "k8snoistio"}
+	realModes    = []string{"UNSET", "DISABLE", "PERMISSIVE", "STRICT"}
+	drToks       = []string{"nil", "nil", "nil", "DISABLE", "SIMPLE", "MUTUAL", "ISTIO_MUTUAL"}
 )
 
 func pickMode(r *wire.Rng) string {
@@ -40,6 +43,10 @@ func genPorts(r *wire.Rng) []portMode {
 	}
 	if len(out) == 0 {
 		out = append(out, portMode{wire.Pick(r, portPool), pickMode(r)})
+	}
+	if r.Chance(1, 10) {
+		// a port-level entry on a port the proxy itself listens on (validation allows it) or a privileged port
+		out = append(out, portMode{wire.Pick(r, reservedPool), pickMode(r)})
 	}
 	if r.Chance(1, 2) { // the ops file keeps an arbitrary order (a Go map has none)
 		for i, j := 0, len(out)-1; i < j; i, j = i+1, j-1 {
@@ -118,6 +125,7 @@ func gen(stream string, seed uint64, n int, outp string) {
 	out := wire.Create(outp)
 	defer out.Close()
 	rootRng := wire.NewRng(seed ^ 0xC10)
+	clTurn := int(seed % 15)
 	for c := 0; c < n; c++ {
 		r := rootRng.Fork()
 		root, nsPool := genRoot(r)
@@ -230,21 +238,43 @@ func gen(stream string, seed uint64, n int, outp string) {
 					}
 					if len(ing) > 0 {
 						if r.Chance(1, 8) {
-							// a proxy without iptables redirection: every ingress listener binds to its port
-							out.Line("ils", wire.Enc(ns), encLabels(labels), wire.EncList(ing), "0", "1")
+							// a proxy without iptables redirection: every ingress listener binds to its port; one in
+							// three unprivileged (ports below 1024 - here 80 and 81 - cannot be bound)
+							out.Line("ils", wire.Enc(ns), encLabels(labels), wire.EncList(ing), "0", "1", wire.B(r.Chance(1, 3)))
 							break
 						}
 						out.Line("ils", wire.Enc(ns), encLabels(labels), wire.EncList(ing), wire.B(r.Chance(1, 3)))
 						break
 					}
 				}
-				if r.Chance(1, 4) {
-					// the composed client decision end to end; mostly an ordinary in-mesh service
+				if r.Chance(1, 3) {
+					// the composed client decision end to end; two in five an ordinary in-mesh service, else the other
+					// kinds in turn (every kind is reached some ten times per quick run); service port 81 has target
+					// port 8081
 					kind := "normal"
-					if r.Chance(1, 3) {
-						kind = wire.Pick(r, []string{"noistio", "external", "passthrough", "ptdisabled", "drpassthrough", "drptdisabled", "drdisable", "dristio"})
+					if r.Chance(3, 5) {
+						kind = clKinds[clTurn%len(clKinds)]
+						clTurn++
 					}
-					out.Line("cl", wire.Enc(ns), encLabels(labels), wire.Enc(wire.Pick(r, nsPool)), kind, strconv.Itoa(int(wire.Pick(r, []uint32{80, 80, 8080, 9000}))))
+					out.Line("cl", wire.Enc(ns), encLabels(labels), wire.Enc(wire.Pick(r, nsPool)), kind, strconv.Itoa(int(wire.Pick(r, []uint32{80, 80, 8080, 9000, 81, 81}))))
+					break
+				}
+				if r.Chance(1, 12) {
+					out.Line("ilt", wire.Enc(ns), encLabels(labels))
+					break
+				}
+				if r.Chance(1, 8) {
+					// arbitrary services, some on reserved target ports (skipped by CanBindToPort) or privileged ones
+					var svcs []string
+					for i, n := 0, r.Intn(5); i < n; i++ {
+						t := wire.Pick(r, []uint32{80, 8080, 9090, 8081, 9000, 443, 15006, 15001, 15021, 15090, 15008})
+						sp := t
+						if r.Chance(1, 3) {
+							sp = uint32(7000 + i) // service port differs from the target port
+						}
+						svcs = append(svcs, fmt.Sprintf("%d:%d:%s", sp, t, wire.Pick(r, []string{"HTTP", "TCP", "TCP", "UNSUPPORTED", "GRPC", "TLS"})))
+					}
+					out.Line("ilr", wire.Enc(ns), encLabels(labels), wire.EncList(svcs))
 					break
 				}
 				if r.Chance(1, 5) {
